@@ -7,6 +7,7 @@ mod error;
 mod path;
 mod sigv4;
 mod secret;
+mod timestamp;
 
 fn main() {
     let args: Vec<String> = std::env::args().skip(1).collect();
@@ -27,11 +28,15 @@ fn main() {
         Some("presigned-date") => service::presigned_date(&args[1..]),
         Some("wire-stream") => service::wire_stream(&args[1..]),
         Some("dispatch") => service::dispatch(),
+        Some("gates") => service::gates(),
+        Some("xml-text") => service::xml_text(),
         Some("host-config") => service::host_config(),
         Some("wire-status") => service::wire_status(&args[1..]),
         Some("wire-de") => service::wire_de(&args[1..]),
         Some("wire-ser") => service::wire_ser(&args[1..]),
         Some("amz-date") => service::amz_date(&args[1..]),
+        Some("timestamp") => timestamp::one(&args[1..]),
+        Some("timestamp-search") => timestamp::search(),
         Some("secret") => secret::run(),
         Some("secret-log") => secret::log(),
         Some("sigv4") => sigv4::one(&args[1..]),
@@ -43,6 +48,8 @@ fn main() {
         Some("sigv2-presigned") => sigv4::v2_presigned(&args[1..]),
         Some("post-form") => sigv4::post_form(&args[1..]),
         Some("sigv4-tamper") => sigv4::tamper(),
+        Some("sigv2-tamper") => sigv4::v2_tamper(),
+        Some("sigv2-append") => sigv4::v2_append(),
         Some("sigv4-search") => sigv4::search(),
         Some("window") => sigv4::window(&args[1..]),
         Some("path-search") => path::search(),
